@@ -55,6 +55,9 @@ checks = {
  "C15": dict(design="4/C15", engine="tlc-bytes", technique="TLC evaluation of the executable predicate definitions of Operators.tla over the whole byte-string input domain (truth table + model-level theorems) compared row by row with the real operators; rule-level negation / capture probes; @ipMatch against the TLA+ CIDR table and net.IPNet",
    text="Each documented predicate is a direct TLA+ definition; TLC evaluates every (operator, argument) pair of the table on every byte string over an adversarial alphabet up to a length bound and prints the truth table; the real operators from the registry are evaluated on every row. Negation and TX.0-9 captures are checked through single-rule WAFs.",
    note="@rx semantics = Go regexp (trusted base); libinjection, rbl, geoLookup, inspectFile, validateSchema/Nid internals are not covered (only what the table lists)."),
+ "C11": dict(design="4/C11", engine="tlc-rxpf", technique="TLC evaluation of the denotational regular-expression semantics of RxPF.tla (all expressions to nesting depth 2 x all inputs to a length bound, theorem MinLenSound) compared with the real @rx with the prefilter on and off, captures compared on/off; differential on/off run over all bundled CRS @rx patterns and hand-written edge patterns with inputs derived from each pattern",
+   text="Inside the fragment the prefilter reasons about, what @rx must answer is given by a denotational semantics in TLA+ evaluated by TLC for every expression up to depth 2 and every input up to a length bound; the real operator must return exactly that with the prefilter on and off, with identical TX.0-9. Outside the fragment (full RE2, the CRS patterns, non-ASCII / invalid UTF-8) the check is differential: prefilter on vs off on inputs generated from each pattern's syntax tree plus perturbations.",
+   note="RE2 matching itself is Go's regexp (trusted base); a disagreement between RxPF.tla and regexp with the prefilter off is a model error (exit 2). The differential part samples inputs (seeded)."),
 }
 
 not_built_reason = "check under construction in this session (see DESIGN.md section 4); not claimed until its machinery is committed"
@@ -77,6 +80,7 @@ manifest = {
    {"name":"tlc-mw","path":"spec/Mw.tla","serves_properties":["C18"],"kind_free_text":"TLA+ case table of the net/http middleware"},
    {"name":"tlc-memo","path":"spec/Memo.tla, spec/MemoConc.tla","serves_properties":["C13","C06"],"kind_free_text":"TLA+ models of the process-wide pattern cache: sequential key/artefact model and concurrent Do/Release protocol"},
    {"name":"tlc-bytes","path":"spec/Bytes.tla, spec/Transform*.tla, spec/Operators*.tla","serves_properties":["C14","C15","C03"],"kind_free_text":"TLA+ reference definitions and laws of pure byte-string functions; TLC enumerates the input domain and validates recorded function tables"},
+   {"name":"tlc-rxpf","path":"spec/RxPF.tla, spec/RxPF_MC.tla","serves_properties":["C11"],"kind_free_text":"TLA+ denotational semantics of the regex fragment the @rx prefilter reasons about"},
    {"name":"tlc-engine","path":"spec/Engine.tla, spec/Scen.tla, spec/Engine_MC.tla, spec/Engine_Trace.tla","serves_properties":["C01","C04","C08","C09","C12","C17"],"kind_free_text":"TLA+ specification of the rule interpreter; TLC enumerates scenarios + allowed outcomes (spec->code replay) and validates recorded executions (code->spec)"},
  ],
  "checks": [],
